@@ -119,6 +119,16 @@ theorem tagged_public_preserved (c : Ctx) (ewi : Bool) (tags : List PTag) (es es
   simp only [filtTV, if_true, Option.some.injEq] at g2
   rw [g1, ← g2]
 
+/-- **Shape preserved (Taggable maps).**  Whatever Process forwards for a Taggable map — any tags, any
+order, found or not, through nested maps and pointers to maps — has the input's skeleton: the same
+keys at every level, maps stay maps, pointers stay pointers, a string stays a string position, every
+other value is untouched. -/
+theorem tagged_shape (c : Ctx) (ewi : Bool) (tags : List PTag) (es : Items) (v' : V)
+    (h : processTagged c ewi tags es = .filtered v') : skel v' = skel (.map es) := by
+  obtain ⟨s, es', hs, he, rfl⟩ := processTagged_filtered h
+  simp only [skel]
+  rw [filtT_skel c s.marks false s.es es' he, applyTags_skel c tags _ s hs]
+
 /-- with every operation overridden to none the very same event is forwarded -/
 theorem tagged_identity (c : Ctx) (ewi : Bool) (tags : List PTag) (es : Items)
     (h : ((effOps c.ov).all (· = .none)) = true) : processTagged c ewi tags es = .same := by
